@@ -485,6 +485,14 @@ impl MdkSqliteStorage {
             .map_err(|e| Error::Database(e.to_string()))?;
 
         let result = (|| -> Result<(), Error> {
+            // Re-taking a snapshot under an existing name replaces it (as the
+            // in-memory backend does) instead of failing on the primary key.
+            conn.execute(
+                "DELETE FROM group_state_snapshots WHERE snapshot_name = ?1 AND group_id = ?2",
+                rusqlite::params![name, group_id_bytes],
+            )
+            .map_err(|e| Error::Database(e.to_string()))?;
+
             // Helper to insert snapshot rows
             let mut insert_stmt = conn
                 .prepare_cached(
